@@ -601,6 +601,20 @@ def _to_posix(ex, st, args, kwargs, node):
     return VStr(z3.Function("as_posix", z3.StringSort(), z3.StringSort())(sval(ex, st, args[0], node).e))
 
 
+def _purified(ex, st, old, new):
+    """fresh name for an appended single-sequence list with its length / element facts (as for list.append)"""
+    if ex.in_spec or isinstance(new.e, list) or old.e is None:
+        return new
+    r = z3.Const(fresh_name("app"), new.e.sort())
+    n = z3.Length(old.e)
+    j = z3.Int(fresh_name("j"))
+    st.assume(r == new.e)
+    st.assume(z3.Length(r) == n + 1)
+    st.assume(r[n] == new.e.arg(1).arg(0))  # new.e is Concat(old, Unit(x))
+    st.assume(z3.ForAll([j], z3.Implies(z3.And(0 <= j, j < n), r[j] == old.e[j])))
+    return VList(new.elem_ty, r)
+
+
 def _write_element(ex, st, args, kwargs, node):
     """_write_xml_element_to_file(file, element, indent): serialise + indent + write.  Ghost effect: the element is
     appended to the sequence of elements written to the file (assumed: lxml serialisation followed by the tool's
@@ -608,14 +622,14 @@ def _write_element(ex, st, args, kwargs, node):
     ex.assumed.add("library: etree.tostring(element) + indentation + file.write renders the element; the rendering is a function of the infoset")
     f, el = args[0], args[1]
     cur = st.get_field(f.e, "File.written", TList(TRef("Element")))
-    st.set_field(f.e, "File.written", TList(TRef("Element")), ex.list_append(cur, el))
+    st.set_field(f.e, "File.written", TList(TRef("Element")), _purified(ex, st, cur, ex.list_append(cur, el)))
     return VNone()
 
 
 def _write_string(ex, st, args, kwargs, node):
     f, text = args[0], args[1]
     cur = st.get_field(f.e, "File.raw", TList(TStr()))
-    st.set_field(f.e, "File.raw", TList(TStr()), ex.list_append(cur, sval(ex, st, text, node)))
+    st.set_field(f.e, "File.raw", TList(TStr()), _purified(ex, st, cur, ex.list_append(cur, sval(ex, st, text, node))))
     return VNone()
 
 
@@ -628,7 +642,7 @@ for _m in ("ascmhl.chain_xml_parser", "ascmhl.hashlist_xml_parser"):
 def _file_write(ex, st, self, args, kwargs, node):
     cur = st.get_field(self.e, "File.raw", TList(TStr()))
     d = args[0]
-    st.set_field(self.e, "File.raw", TList(TStr()), ex.list_append(cur, VStr(d.e)))
+    st.set_field(self.e, "File.raw", TList(TStr()), _purified(ex, st, cur, ex.list_append(cur, VStr(d.e))))
     return VNone()
 
 
